@@ -60,4 +60,8 @@ IndInit == IndInv /\ MaxViewConstraint
 
 \* The spec's own stated invariants (those listed in the .launch file).
 Target == TypeOK /\ InvTwoBlocksAccepted /\ InvFaultNodesCount
+
+\* Non-vacuity probe, expected to be VIOLATED: Apalache must exhibit a state of IndInit
+\* in which two nodes have accepted a block (so IndInit is not empty / trivial).
+VacuityProbe == Cardinality({r \in RM: rmState[r].type = "blockAccepted"}) < 2
 =============================================================================
